@@ -69,7 +69,11 @@ def by_value_form(ctx, config, w, crate, op, A, B, Rr, imp, amt, rule="derived-f
         if val(atom):
             return ("val", S.new(prod, ("unwrap", T.canon(look)), tag=Rr))
         return ("val", S.app("HasRefUnit::_fit", S.R(("*", prod, sigma)), tag=Rr))
-    probs = list(S.compare_cases(outs, [atom], spec))
+    try:
+        probs = list(S.compare_cases(outs, [atom], spec))
+    except T.Unsupported as x:
+        ctx.fail(rule, inst, "the operator's body has more cases than the truth-table comparison handles (%s)" % x.what, b["span"])
+        return
     if probs and amt in (A, B):
         # an operand is the dimensionless amount: it is its own amount and its one unit has scale 1 (C08's rules), so
         # code that uses the value directly is compared with the specification written the same way
